@@ -211,8 +211,10 @@ package process
 //@    ite(before.Channel != nil && new.Ident == "", now.Ident == before.Ident && now.ChannelID == before.ChannelID, now.Ident == new.Ident && now.ChannelID == new.ChannelID)
 
 //@ contract (*Name).Substitute
+//@   inline
 //@   ensures C14.substHit: sameName(old(deref(n)), old) ==> replacedBy(deref(n), old(deref(n)), new)
 //@   ensures C14.substMiss: !sameName(old(deref(n)), old) ==> deref(n) == old(deref(n))
+//@   ensures C14.substOnly: forall x *Name :: x != n ==> deref(x) == old(deref(x))
 //@   safety C09
 
 //@ contract (*Name).ContainedIn
@@ -232,3 +234,101 @@ package process
 //@   loop 1 invariant (forall k int :: 0 <= k && k <= idx ==> !sameName(check, names[k]))
 //@   safety C09
 //@   pure
+
+// ---- substitution in terms. Terms are trees: depth-first interval numbering (flo, fhi) as for types.
+//@ spec flo(f Form) int
+//@ spec fhi(f Form) int
+//@ macro fkid(c Form, f Form) bool = c != nil && flo(f) < flo(c) && flo(c) <= fhi(c) && fhi(c) <= fhi(f) && formTree(c)
+//@ spec formTree(f Form) bool = f != nil && flo(f) <= fhi(f) &&
+//@    (is(f, ReceiveForm) ==> fkid(ReceiveForm(f).continuation_e, f)) &&
+//@    (is(f, BranchForm) ==> fkid(BranchForm(f).continuation_e, f)) &&
+//@    (is(f, CaseForm) ==> (forall i int :: 0 <= i && i < len(CaseForm(f).branches) ==> CaseForm(f).branches[i] != nil && fkid(Form(CaseForm(f).branches[i]), f)) &&
+//@                         (forall i int, j int :: 0 <= i && i < j && j < len(CaseForm(f).branches) ==> fhi(Form(CaseForm(f).branches[i])) < flo(Form(CaseForm(f).branches[j])))) &&
+//@    (is(f, NewForm) ==> fkid(NewForm(f).body, f) && fkid(NewForm(f).continuation_e, f) && fhi(NewForm(f).body) < flo(NewForm(f).continuation_e)) &&
+//@    (is(f, SplitForm) ==> fkid(SplitForm(f).continuation_e, f)) &&
+//@    (is(f, WaitForm) ==> fkid(WaitForm(f).continuation_e, f)) &&
+//@    (is(f, ShiftForm) ==> fkid(ShiftForm(f).continuation_e, f)) &&
+//@    (is(f, DropForm) ==> fkid(DropForm(f).continuation_e, f)) &&
+//@    (is(f, PrintForm) ==> fkid(PrintForm(f).continuation_e, f))
+
+//@ macro fout(x Form, t Form) bool = !(flo(t) <= flo(x) && flo(x) <= fhi(t))
+// names of term nodes outside the subtree of t are untouched
+//@ macro keptSendForm(t Form) bool = forall a1 *SendForm :: fout(Form(a1), t) ==> a1.to_c == old(a1.to_c) && a1.payload_c == old(a1.payload_c) && a1.continuation_c == old(a1.continuation_c)
+//@ macro keptReceiveForm(t Form) bool = forall a2 *ReceiveForm :: fout(Form(a2), t) ==> a2.from_c == old(a2.from_c) && a2.payload_c == old(a2.payload_c) && a2.continuation_c == old(a2.continuation_c)
+//@ macro keptSelectForm(t Form) bool = forall a3 *SelectForm :: fout(Form(a3), t) ==> a3.to_c == old(a3.to_c) && a3.continuation_c == old(a3.continuation_c)
+//@ macro keptBranchForm(t Form) bool = forall a4 *BranchForm :: fout(Form(a4), t) ==> a4.payload_c == old(a4.payload_c)
+//@ macro keptCaseForm(t Form) bool = forall a5 *CaseForm :: fout(Form(a5), t) ==> a5.from_c == old(a5.from_c)
+//@ macro keptNewForm(t Form) bool = forall a6 *NewForm :: fout(Form(a6), t) ==> a6.new_name_c == old(a6.new_name_c)
+//@ macro keptCloseForm(t Form) bool = forall a7 *CloseForm :: fout(Form(a7), t) ==> a7.from_c == old(a7.from_c)
+//@ macro keptForwardForm(t Form) bool = forall a8 *ForwardForm :: fout(Form(a8), t) ==> a8.to_c == old(a8.to_c) && a8.from_c == old(a8.from_c)
+//@ macro keptSplitForm(t Form) bool = forall a9 *SplitForm :: fout(Form(a9), t) ==> a9.from_c == old(a9.from_c) && a9.channel_one == old(a9.channel_one) && a9.channel_two == old(a9.channel_two)
+//@ macro keptWaitForm(t Form) bool = forall b1 *WaitForm :: fout(Form(b1), t) ==> b1.to_c == old(b1.to_c)
+//@ macro keptCastForm(t Form) bool = forall b2 *CastForm :: fout(Form(b2), t) ==> b2.to_c == old(b2.to_c) && b2.continuation_c == old(b2.continuation_c)
+//@ macro keptShiftForm(t Form) bool = forall b3 *ShiftForm :: fout(Form(b3), t) ==> b3.from_c == old(b3.from_c) && b3.continuation_c == old(b3.continuation_c)
+//@ macro keptDropForm(t Form) bool = forall b4 *DropForm :: fout(Form(b4), t) ==> b4.client_c == old(b4.client_c)
+//@ macro namesOutsideKept(t Form) bool = keptSendForm(t) && keptReceiveForm(t) && keptSelectForm(t) && keptBranchForm(t) && keptCaseForm(t) && keptNewForm(t) && keptCloseForm(t) && keptForwardForm(t) && keptSplitForm(t) && keptWaitForm(t) && keptCastForm(t) && keptShiftForm(t) && keptDropForm(t)
+
+//@ macro nameSubst(now Name, before Name, o Name, nw Name) bool = ite(sameName(before, o), replacedBy(now, before, nw), now == before)
+
+// the free (non-binding) name occurrences of the root node are substituted; binders are left alone
+//@ macro ownSubst(f Form, o Name, nw Name) bool =
+//@    (is(f, SendForm) ==> nameSubst(SendForm(f).to_c, old(SendForm(f).to_c), o, nw) && nameSubst(SendForm(f).payload_c, old(SendForm(f).payload_c), o, nw) && nameSubst(SendForm(f).continuation_c, old(SendForm(f).continuation_c), o, nw)) &&
+//@    (is(f, ReceiveForm) ==> nameSubst(ReceiveForm(f).from_c, old(ReceiveForm(f).from_c), o, nw) && ReceiveForm(f).payload_c == old(ReceiveForm(f).payload_c) && ReceiveForm(f).continuation_c == old(ReceiveForm(f).continuation_c)) &&
+//@    (is(f, SelectForm) ==> nameSubst(SelectForm(f).to_c, old(SelectForm(f).to_c), o, nw) && nameSubst(SelectForm(f).continuation_c, old(SelectForm(f).continuation_c), o, nw)) &&
+//@    (is(f, BranchForm) ==> BranchForm(f).payload_c == old(BranchForm(f).payload_c)) &&
+//@    (is(f, CaseForm) ==> nameSubst(CaseForm(f).from_c, old(CaseForm(f).from_c), o, nw)) &&
+//@    (is(f, NewForm) ==> NewForm(f).new_name_c == old(NewForm(f).new_name_c)) &&
+//@    (is(f, CloseForm) ==> nameSubst(CloseForm(f).from_c, old(CloseForm(f).from_c), o, nw)) &&
+//@    (is(f, ForwardForm) ==> nameSubst(ForwardForm(f).to_c, old(ForwardForm(f).to_c), o, nw) && nameSubst(ForwardForm(f).from_c, old(ForwardForm(f).from_c), o, nw)) &&
+//@    (is(f, SplitForm) ==> nameSubst(SplitForm(f).from_c, old(SplitForm(f).from_c), o, nw) && SplitForm(f).channel_one == old(SplitForm(f).channel_one) && SplitForm(f).channel_two == old(SplitForm(f).channel_two)) &&
+//@    (is(f, WaitForm) ==> nameSubst(WaitForm(f).to_c, old(WaitForm(f).to_c), o, nw)) &&
+//@    (is(f, CastForm) ==> nameSubst(CastForm(f).to_c, old(CastForm(f).to_c), o, nw) && nameSubst(CastForm(f).continuation_c, old(CastForm(f).continuation_c), o, nw)) &&
+//@    (is(f, ShiftForm) ==> nameSubst(ShiftForm(f).from_c, old(ShiftForm(f).from_c), o, nw) && ShiftForm(f).continuation_c == old(ShiftForm(f).continuation_c)) &&
+//@    (is(f, DropForm) ==> nameSubst(DropForm(f).client_c, old(DropForm(f).client_c), o, nw))
+
+//@ contract interface Form.Substitute(self, o, nw)
+//@   requires[C14] formTree(self)
+//@   ensures[C14] C14.substOwn: ownSubst(self, o, nw)
+//@   ensures[C14] C14.frameSendForm: keptSendForm(self)
+//@   ensures[C14] C14.frameReceiveForm: keptReceiveForm(self)
+//@   ensures[C14] C14.frameSelectForm: keptSelectForm(self)
+//@   ensures[C14] C14.frameBranchForm: keptBranchForm(self)
+//@   ensures[C14] C14.frameCaseForm: keptCaseForm(self)
+//@   ensures[C14] C14.frameNewForm: keptNewForm(self)
+//@   ensures[C14] C14.frameCloseForm: keptCloseForm(self)
+//@   ensures[C14] C14.frameForwardForm: keptForwardForm(self)
+//@   ensures[C14] C14.frameSplitForm: keptSplitForm(self)
+//@   ensures[C14] C14.frameWaitForm: keptWaitForm(self)
+//@   ensures[C14] C14.frameCastForm: keptCastForm(self)
+//@   ensures[C14] C14.frameShiftForm: keptShiftForm(self)
+//@   ensures[C14] C14.frameDropForm: keptDropForm(self)
+
+// lexical scoping: the continuation under a binder is substituted only if no binder is the name being replaced
+//@ contract (*ReceiveForm).Substitute
+//@   callsite C14.scopeRecv process.Form.Substitute#1: !sameName(p.payload_c, old) && !sameName(p.continuation_c, old)
+//@ contract (*BranchForm).Substitute
+//@   callsite C14.scopeBranch process.Form.Substitute#1: !sameName(p.payload_c, old)
+//@ contract (*NewForm).Substitute
+//@   callsite C14.scopeNew process.Form.Substitute#2: !sameName(p.new_name_c, old)
+//@ contract (*SplitForm).Substitute
+//@   callsite C14.scopeSplit process.Form.Substitute#1: !sameName(p.channel_one, old) && !sameName(p.channel_two, old)
+//@ contract (*ShiftForm).Substitute
+//@   callsite C14.scopeShift process.Form.Substitute#1: !sameName(p.continuation_c, old)
+
+//@ contract (*CallForm).Substitute
+//@   loop[C14] 1 invariant (forall x *Name :: !isElem(x) ==> deref(x) == old(deref(x)))
+//@ contract (*CaseForm).Substitute
+//@   loop[C14] 1 invariant nameSubst(p.from_c, old(p.from_c), old, new)
+//@   loop[C14] 1 invariant keptSendForm(Form(p))
+//@   loop[C14] 1 invariant keptReceiveForm(Form(p))
+//@   loop[C14] 1 invariant keptSelectForm(Form(p))
+//@   loop[C14] 1 invariant keptBranchForm(Form(p))
+//@   loop[C14] 1 invariant keptCaseForm(Form(p))
+//@   loop[C14] 1 invariant keptNewForm(Form(p))
+//@   loop[C14] 1 invariant keptCloseForm(Form(p))
+//@   loop[C14] 1 invariant keptForwardForm(Form(p))
+//@   loop[C14] 1 invariant keptSplitForm(Form(p))
+//@   loop[C14] 1 invariant keptWaitForm(Form(p))
+//@   loop[C14] 1 invariant keptCastForm(Form(p))
+//@   loop[C14] 1 invariant keptShiftForm(Form(p))
+//@   loop[C14] 1 invariant keptDropForm(Form(p))
